@@ -209,6 +209,7 @@ def main():
 
     # ---- 1 translate -------------------------------------------------------------------------
     translate_info = {}
+    translate_failed = {}     # part -> (reason, generated files of its last good run or None)
     if True:
         tp = os.path.join(VERIF, "tools", "translate.py")
         if os.path.exists(tp):
@@ -223,6 +224,8 @@ def main():
                     translate_info = json.loads(out.strip().splitlines()[-1])
                 except Exception:
                     translate_info = {}
+                for part, why in (translate_info.get("failed") or {}).items():
+                    translate_failed[part] = (why, (translate_info.get("failed_files") or {}).get(part))
 
     # ---- 2 lake build ------------------------------------------------------------------------
     props_files = [props_path] if os.path.exists(props_path) else []
@@ -231,6 +234,22 @@ def main():
         props_files += sorted(os.path.join(sub, f) for f in os.listdir(sub) if f.endswith(".lean"))
     theorems = [t for pf in props_files for t in list_theorems(pf)]
     props_mods = [os.path.relpath(pf, LEAN)[:-5].replace(os.sep, ".") for pf in props_files] or [props_mod]
+    # A translator part that could not parse the sources is a broken tie for THIS property only if the property's
+    # theorems import one of the tables that part regenerates (they would be re-checked against the last good table,
+    # not against the source as it is now).
+    # Otherwise it is recorded in the evidence and nothing more: the correspondence streams of this property run
+    # against the real code and show a stale table by themselves.
+    if translate_failed:
+        closure = {x for pm in props_mods for x in lean_imports_closure(pm)}
+        gen_used = {m.split(".")[-1] + ".lean" for m in closure if m.startswith("EG.Generated.")}
+        for part, (why, files) in sorted(translate_failed.items()):
+            uses = files is None or bool(gen_used & set(files))
+            if uses:
+                broken_theorems.append(f"translator part {part}: {why}")
+                say(f"translator part {part} failed (broken tie for {pid}):", why[-300:])
+            else:
+                tie_notes.append(f"translator part {part} could not parse the sources ({why[:200]}); no theorem of {pid} imports its tables, so this is not a broken obligation of {pid}")
+                say(f"translator part {part} failed; not used by {pid}'s theorems (noted in the evidence)")
     lean_ok = True
     with Lock("lake.lock"):
         if tier == "thorough" and not replay:
